@@ -220,6 +220,38 @@ class C07(BridgeProp):
                 prev = d
                 dg.append({"do": "dgram", "p": p, "d": d, "cbraise": rng.random() < 0.2})
             out.append(wrap(ports, dg))
+        # bursts: several datagrams reach the sockets in the same loop iteration (also across ports), some callbacks raise,
+        # some datagrams cannot be decoded; every delivery is attributed by the device id the harness put into the datagram
+        for _ in range(ctx.pick(150, 3000)):
+            nports = rng.randrange(1, 5)
+            ports = PORTS[:nports]
+            steps = [{"do": "start"}]
+            for _b in range(rng.randrange(1, 4)):
+                items = []
+                for _i in range(rng.randrange(2, 7)):
+                    k = rng.random()
+                    if k < 0.6:
+                        d = rdev(rng)
+                    elif k < 0.75:
+                        d = rdev(rng, name=[0xFF, 0xFE, 0x41])                      # undecodable name: the parser raises
+                    elif k < 0.85:
+                        d = {"t": "mutate", "of": rdev(rng), "set": [[rng.choice([0, 1]), rng.choice([0, 0x7E, 0xFF, 0xF1])]]}   # magic destroyed
+                    elif k < 0.93:
+                        d = rdev(rng)
+                        d["code"] = [rng.randrange(256), rng.randrange(256)]
+                    else:
+                        d = {"t": "random", "n": rng.choice([0, 3, 159, 165, 168]), "magic": "no", "seed": rng.randrange(1 << 30)}
+                    items.append({"p": rng.choice(ports), "d": d, "cbraise": rng.random() < 0.3})
+                steps.append({"do": "burst", "items": items, "yields": rng.choice([2, 3, 5])})
+                steps.append({"do": "dgram", "p": rng.choice(ports), "d": rdev(rng), "cbraise": False})
+            steps += [{"do": "stop"}, {"do": "cycle"}]
+            out.append({"ports": ports, "steps": steps})
+        # valid broadcasts whose magic bytes are damaged must not reach the callback
+        dg = []
+        for typ in TYPES:
+            for off, val in ((0, 0xFF), (0, 0x7E), (1, 0xF1), (1, 0x00), (0, 0x00)):
+                dg.append({"do": "dgram", "p": PORTS[0], "d": {"t": "mutate", "of": rdev(rng, typ), "set": [[off, val]]}})
+        out.append(wrap(PORTS, dg))
         return out
 
     def owns(self, clause):
@@ -281,6 +313,19 @@ class C17(BridgeProp):
                 + [f"send{k + 1}" for k in range(np_)] * 2
             word = [rng.choice(alpha) for _ in range(rng.randrange(3, 11))]
             out.append({"ports": ps, "steps": life_steps(rng, ps, word)})
+        # stop() racing with datagrams that are already on their way: nothing may reach the callback once stop has returned
+        for _ in range(ctx.pick(200, 3000)):
+            np_ = rng.randrange(1, 4)
+            ps = PORTS[:np_]
+            steps = [{"do": "start"}]
+            if rng.random() < 0.5:
+                steps.append({"do": "dgram", "p": rng.choice(ps), "d": rdev(rng), "cbraise": False})
+            items = [{"p": rng.choice(ps), "d": rdev(rng), "cbraise": rng.random() < 0.15} for _ in range(rng.randrange(1, 5))]
+            steps.append({"do": "burst", "items": items, "yields": rng.choice([0, 1, 2, 3]), "then": "stop"})
+            steps += [{"do": "cycle"}]
+            if rng.random() < 0.5:
+                steps += [{"do": "start"}, {"do": "dgram", "p": rng.choice(ps), "d": rdev(rng), "cbraise": False}, {"do": "stop"}, {"do": "cycle"}]
+            out.append({"ports": ps, "steps": steps})
         # a port listed twice, and an empty port list
         out.append({"ports": [PORTS[0], PORTS[0]], "steps": life_steps(rng, [PORTS[0]], ["start", "send1", "stop", "cycle", "send1"])})
         out.append({"ports": [], "steps": [{"do": "start"}, {"do": "stop"}]})
